@@ -236,6 +236,23 @@ func gen(g *vh.Gen) {
 	for i := 0; i < g.N(1500, 30000); i++ {
 		g.Emit("addr", vh.HS(naiveAddress(g)))
 	}
+	// thorough tier: every string of length <= 5 over 14 significant symbols (a search aid, never cited as proof)
+	if g.Tier == "thorough" {
+		const alpha = "aA1.+@\"\\[]:- \x80"
+		var rec func(prefix []byte, left int)
+		rec = func(prefix []byte, left int) {
+			if len(prefix) > 0 {
+				g.Emit("addr", vh.H(prefix))
+			}
+			if left == 0 {
+				return
+			}
+			for i := 0; i < len(alpha); i++ {
+				rec(append(prefix, alpha[i]), left-1)
+			}
+		}
+		rec(nil, 5)
+	}
 	// letter-case variants
 	for i := 0; i < g.N(6000, 150000); i++ {
 		a := genAddress(g)
